@@ -654,6 +654,27 @@ Definition ctn_read (fmt : str) (facts extra : list node) (s : str) : res (list 
   else if str_eqb fmt (lit "cborb64") then read_cbor_b64 sha str uns s
   else Err 99.
 
+(* is [s] byte for byte something the library's own writers produce (sections with minimal length prefixes, every block
+   under the CIDv1 / dag-cbor / sha2-256 of its data, no block twice; for the base64 forms the canonical text)? C17 pins what
+   comes back from what was written, and that corrupt input fails; whether a reader also takes hand-made input that says the
+   same thing another way (padded varints, other CID forms, a block twice) is left open *)
+Fixpoint str_nodup (l : list str) : bool :=
+  match l with [] => true | x :: r => negb (existsb (str_eqb x) r) && str_nodup r end.
+Definition writer_image (fmt : str) (facts extra : list node) (s : str) : bool :=
+  let sha (b : str) : str := match fact_of b facts with Some (h, _) => h | None => [] end in
+  let mh (code len : N) (b : str) : res str :=
+    if (code =? 18) && (len =? 32) then (match fact_of b facts with Some (h, _) => Ok h | None => Err 1 end)
+    else match extra_of code len b extra with Some h => Ok h | None => Err 1 end in
+  let car_img (b : str) : bool :=
+    match car_blobs mh b with Ok blobs => str_eqb (write_car sha blobs) b && str_nodup blobs | _ => false end in
+  let cbor_img (b : str) : bool :=
+    match cbor_blobs b with Ok blobs => str_nodup blobs && (length (write_cbor blobs) =? length b)%nat | _ => false end in
+  if str_eqb fmt (lit "car") then car_img s
+  else if str_eqb fmt (lit "carb64") then match b64_decode s with Ok b => car_img b && str_eqb (b64_encode b) s | _ => false end
+  else if str_eqb fmt (lit "cbor") then cbor_img s
+  else if str_eqb fmt (lit "cborb64") then match b64_decode s with Ok b => cbor_img b && str_eqb (b64_encode b) s | _ => false end
+  else false.
+
 Definition ctn_obs (r : res (list (str * str))) : node :=
   match r with Ok m => List [Str (lit "ok"); sorted_cids m] | Err _ => List [Str (lit "err")] | Panic => List [Str (lit "panic")] end.
 
@@ -664,6 +685,11 @@ Definition eng_container (inp impl : node) : verdict :=
   | List [Str fmt; Bytes s; List facts; List extra; expect] =>
       let m := ctn_obs (ctn_read fmt facts extra s) in
       let want := match expect with List _ => List [Str (lit "ok"); expect] | _ => m end in
+      (* an input no writer of the library produces, refused by both readers although the model would take it: open *)
+      let refused := match impl with List [List [Str a]; List [Str b]] => str_eqb a (lit "err") && str_eqb b (lit "err") | _ => false end in
+      let open_case := refused && negb (writer_image fmt facts extra s) in
+      let m := if open_case then List [Str (lit "err")] else m in
+      let want := if open_case then m else want in
       let ok := match impl with List [a; b] => node_eqb a want && node_eqb b want | _ => false end in
       let is_okobs (n : node) := match n with List (Str k :: _) => str_eqb k (lit "ok") | _ => false end in
       (* both sides return tokens, but not under the same CIDs: the reader's keys are not the content
